@@ -2,7 +2,6 @@ package props
 
 import (
 	"fmt"
-	"regexp"
 	"sort"
 	"strings"
 
@@ -172,33 +171,21 @@ func c19Rules(p *core.Prog, r *core.Run) {
 		r.Check("C19.POOL", "pool-key", false, p.Pos(rt.Pos()), "URL.Host is not rewritten into a pool key")
 	} else {
 		v := p.X(urlHostStore.Val)
-		ok := v.Op == "call" && v.Name == "fmt.Sprintf"
 		var hasPort, hasScheme, hasHost bool
-		if v.Op == "bin" && v.Name == "+" {
-			// the same key built by concatenation: the three parts, each next to a
-			// non-empty constant on both sides
-			var parts []*core.Expr
-			var flat func(e *core.Expr)
-			flat = func(e *core.Expr) {
-				if e.Op == "bin" && e.Name == "+" {
-					flat(e.Args[0])
-					flat(e.Args[1])
-					return
-				}
-				parts = append(parts, e)
-			}
-			flat(v)
+		// the key, formatted or concatenated: three values, each between
+		// non-empty literals
+		parts, ok := stringParts(p, v)
+		if ok {
 			nVar := 0
-			sep := true
-			for i, a := range parts {
-				if a.Op == "const" {
+			for i, part := range parts {
+				if part.Val == nil {
 					continue
 				}
 				nVar++
-				if i == 0 || i == len(parts)-1 || parts[i-1].Op != "const" || len(parts[i-1].Name) <= 2 || parts[i+1].Op != "const" || len(parts[i+1].Name) <= 2 {
-					sep = false
+				if i == 0 || i == len(parts)-1 || parts[i-1].Val != nil || parts[i-1].Lit == "" || parts[i+1].Val != nil || parts[i+1].Lit == "" {
+					ok = false
 				}
-				for _, alt := range a.Alts() {
+				for _, alt := range part.Val.Alts() {
 					switch {
 					case alt.Op == "ext" && alt.Name == "#1" && alt.Args[0].Name == "net.SplitHostPort":
 						hasPort = true
@@ -211,33 +198,7 @@ func c19Rules(p *core.Prog, r *core.Run) {
 					}
 				}
 			}
-			ok = sep && nVar == 3
-		} else if ok {
-			c := urlHostStore.Val.(*ssa.Call)
-			args := variadicArgs(p, c.Call.Args[1])
-			for _, a := range args {
-				for _, alt := range a.Alts() {
-					switch {
-					case alt.Op == "ext" && alt.Name == "#1" && alt.Args[0].Name == "net.SplitHostPort":
-						hasPort = true
-					case alt.Op == "call" && alt.Name == "(*net/url.URL).Port":
-						hasPort = true
-					case alt.Op == "field" && alt.Name == "Scheme":
-						hasScheme = true
-					case hostPart(alt):
-						hasHost = true
-					}
-				}
-			}
-			format := strings.Trim(v.Args[0].Name, `"`)
-			verbs := regexp.MustCompile(`%[sdv]`).FindAllStringIndex(format, -1)
-			sep := len(verbs) == 3
-			for i := 1; i < len(verbs); i++ {
-				if verbs[i][0] == verbs[i-1][1] {
-					sep = false
-				}
-			}
-			ok = sep && len(args) == 3
+			ok = ok && nVar == 3
 		}
 		r.Check("C19.POOL", "pool-key", ok && hasPort && hasScheme && hasHost, p.InstrPos(urlHostStore), "the pool key combines port (%v), scheme (%v) and host (%v) with separators, so different origins never share pooled connections: %s", hasPort, hasScheme, hasHost, short(v))
 	}
